@@ -15,16 +15,17 @@ TEXT = {
          "note": S_NOTE},
  "C02": {"level": "Proved (S): exact quarter turns new(k,2)=(k blades, rem 0.0) for all k<2^53 and create_dimension; constant table (0, pi/2, pi, 3pi/2, -pi/2, 4pi); "
                   "general path with non-negative total: blade = floor(nt/(pi/2)) and blade*(pi/2)+rem = nt exactly, or snapped to the next blade within 1e-10; "
-                  "new_with_blade adds exactly k blades; scalar sign law. Partial: negative totals in general, Cartesian round trip (explored by oracle with exact "
-                  "rational floor(2p/d)).", "note": S_NOTE},
+                  "new_with_blade adds exactly k blades; scalar sign law. Proved (E, exact reals): Angle::new(p,d) denotes p*pi/d modulo whole turns within 1e-10 for "
+                  "every real p,d and every path (fast, negative, general); new_from_cartesian has total arg(x+iy) and the Euclidean norm. Partial: the ulp "
+                  "bound relating the float product p*pi/d to the real one (explored by oracle with exact rational floor(2p/d)).", "note": S_NOTE},
  "C03": {"level": "Proved for all canonical angles of any blade count: 12 spellings identical (G), bit-for-bit commutativity, zero identity, "
                   "blade = sum with at most one carry, invariant preserved, |T(a+b) - (T a + T b)| < 1e-10 + 1e-15 in rounded arithmetic (S); "
-                  "associativity of totals proved at 4x the tolerance (partial: property states 2x). Tie: all 12 spellings bit-exact.",
+                  "associativity of totals within twice the tolerance (at most one snap per bracketing) (S). Tie: all 12 spellings bit-exact.",
          "note": S_NOTE},
  "C04": {"level": "Proved for all canonical angles of any blade count: 8+2 spellings identical and the blade-wrap laws (G); a-a is literally the "
                   "zero angle, the difference is canonical, T(a-b) = T(a)-T(b) within 1e-10+1e-15 with no spurious turns when T(b)<=T(a), and "
-                  "otherwise a forward rotation congruent mod whole turns with blade<=4 (=4 only with remainder 0) (S). Not yet proved "
-                  "(explored by oracle clauses only): (a+b)-b~a and the Div<f64> total law.",
+                  "otherwise a forward rotation congruent mod whole turns with blade<=4 (=4 only with remainder 0); (a+b)-b returns a within two "
+                  "tolerances (S). Not yet proved (explored by an oracle clause): the Div<f64> total law.",
          "note": S_NOTE},
  "C05": {"level": "Proved: product = (one float product of magnitudes, angle sum), all division spellings = multiplication by the inverse, panics exactly on "
                   "zero magnitude, Angle*/+Geonum only rotate, scale = mul by scalar, pow magnitude (G); bit-for-bit commutativity, [1,0] identity, inverse "
@@ -32,8 +33,10 @@ TEXT = {
                   "Partial: associativity, powf rounding.", "note": S_NOTE},
  "C06": {"level": "Proved: sub = add of the half-turned operand, all spellings and translate identical (G); a-a has magnitude exactly 0.0; every branch of + and - "
                   "returns a finite non-negative magnitude for magnitudes in [0,1e100] (never NaN - relies on the radicand clamp fix); zero operand with the same "
-                  "angle leaves magnitude and angle unchanged (S). Partial (explored by oracle with Cartesian reference): the refinement to component-wise "
-                  "addition within 1e-10 and the sqrt(eps) cancellation bound.", "note": S_NOTE},
+                  "angle leaves magnitude and angle unchanged (S). Proved (E, exact reals): the Cartesian point of a+b is the component-wise sum within "
+                  "1e-10*(1+|a|+|b|) in every branch (same angle, opposite incl. cancellation, law of cosines + atan2 + re-encoding), likewise a-b; a+b and "
+                  "b+a denote the same point; a zero operand leaves the vector unchanged. Not proved (explored with a Cartesian oracle): the binary64 "
+                  "rounding bound incl. the sqrt(eps) cancellation regime.", "note": S_NOTE},
  "C07": {"level": "Proved: grade = blade mod 4 and predicates, base_angle, magnitudes untouched, is_opposite <-> blade counts differ by exactly two "
                   "(unbounded integers) and the remainder test (G); each step operator's exact blade delta (2,2,2,2,1,1,3,3) with remainder value "
                   "and canonicity preserved; history theorem by induction over any sequence of step operations of any length; 4-cycle "
@@ -50,24 +53,27 @@ TEXT = {
                   "negative (G); wedge magnitude in [0, rnd(|a||b|)], angle canonical with blade in [ba+bb+1, ba+bb+4] (S). Partial (explored): sine value, "
                   "anticommutation, Lagrange identity.", "note": S_NOTE},
  "C11": {"level": "Proved: projection independent of |b| beyond the 1e-10 test, structure (|a||cos| along b's angle, +pi iff factor negative), tiny-axis branch total, "
-                  "reject = a - proj, angle/dimension forms (G); 0 <= |proj| <= |a|, projection angle canonical with b's blade or +2 and b's remainder (S). "
-                  "Partial (explored): orthogonal decomposition, Pythagoras, cos(k pi/2 - t).", "note": S_NOTE},
+                  "reject = a - proj, angle/dimension forms (G); 0 <= |proj| <= |a|, projection angle canonical with b's blade or +2 and b's remainder (S); "
+                  "the projection's Cartesian point is |a|cos(Tb-Ta+delta) along b (i.e. (a.b^)b^ within |a|*1e-10), projection + rejection = a as points (E). "
+                  "Partial (explored): orthogonality and Pythagoras as separate statements, cos(k pi/2 - t).", "note": S_NOTE},
  "C12": {"level": "Proved: rotation returns the magnitude field itself and the angle sum; reflection never reads the axis length; scale-rotate branch law (G); full turn "
-                  "adds exactly 4 blades keeping grade and remainder; rotation carries; reflection result canonical with at least twice the axis's blades (S). "
-                  "Partial (explored): 2*alpha - t direction law, involution, Cartesian meaning of scale-rotate.", "note": S_NOTE},
+                  "adds exactly 4 blades keeping grade and remainder; rotation carries; reflection result canonical with at least twice the axis's blades (S); "
+                  "rotations add totals; reflection sends direction t to 2*alpha - t modulo whole turns within 3 tolerances, same across the negated axis, fixed on "
+                  "the axis (E). Partial (explored): Cartesian meaning of scale-rotate.", "note": S_NOTE},
  "C13": {"level": "Proved: mag_diff definition; invert_circle panics exactly when the offset magnitude compares equal to zero (G); distance_to is finite, non-negative "
                   "(never NaN - relies on the clamp fix) and sits at blade 0 with remainder 0; inverting the circle's own centre panics (S). Partial (explored): "
                   "Euclidean meaning, metric axioms, inversion laws.", "note": S_NOTE},
  "C14": {"level": "Proved: same-angle branch keeps the receiver's angle field; opposite branch: cancellation gives (0.0, new_with_blade(ba+bb)) literally blade ba+bb rem "
                   "0.0, otherwise the larger summand's angle field (G/S); the equality tests are blade-exact so the branches fire only for equal blades / "
-                  "blades exactly two apart (S). The general-regime bound is FALSE of the float code for blade sums above ~1e5 (known finding, witness replayed).",
+                  "blades exactly two apart (S); general regime in exact arithmetic: blade sum <= result blade <= blade sum + 4, = +4 only with remainder 0 (E). "
+                  "That bound is FALSE of the float code for blade sums above ~1e5 (known finding, witness replayed).",
          "note": S_NOTE},
  "C15": {"level": "Proved: tan = sin.div(cos), adj/opp = cos/sin scaled (definitional), cos/sin = |libm value| at base or base+pi iff the value tests negative (G); "
-                  "lattice placement (cos on blade 0/2, sin on blade 1/3, remainder 0), magnitudes in [0,1] (S). Partial (explored): Pythagorean identity, tan "
-                  "value/period/odd grade, Cartesian components.", "note": S_NOTE},
+                  "lattice placement (cos on blade 0/2, sin on blade 1/3, remainder 0), magnitudes in [0,1] (S); magnitudes are |cos T|,|sin T| and cos^2+sin^2=1 "
+                  "exactly (E). Partial (explored): tan value/period/odd grade, Cartesian components of adj/opp.", "note": S_NOTE},
  "C16": {"level": "Proved: == implies identical blades; Geonum == adds magnitude; partial_cmp = Some(cmp) (G); cmp is the lexicographic order on (blade, remainder "
                   "value): never panics on finite fields, reflexive, antisymmetric, transitive, total; cmp=Equal implies ==; == implies remainders within "
-                  "1e-15 (S); totality of the sort relation over exact reals (E). '== implies cmp=Equal' is FALSE of the code (known finding, witness replayed); "
+                  "1e-15 (S); over exact reals sort never panics and returns a sorted permutation (List.mergeSort with the proved lawful order) (E). '== implies cmp=Equal' is FALSE of the code (known finding, witness replayed); "
                   "proved only for equal remainder values (_partial).", "note": S_NOTE},
  "C17": {"level": "Proved for every arithmetic (G): truncate/select_cone are exactly List.filter by the coded predicates (sublists, order kept, strictness, zero "
                   "members/axis never selected); scale_all/rotate_all are List.map (length kept); total_magnitude is the left fold from -0.0; dominant is None "
